@@ -51,6 +51,8 @@ def _pick_tx(rng, min_codons=26):
                  and (g['transcripts'][0]['cds'][1] - g['transcripts'][0]['cds'][0]) // 3 >= min_codons]
         if cands:
             gene, tx = rng.choice(cands)
+            if rng.random() < 0.6:
+                extend_gene_upstream(rng, world, gene)      # gene coordinates != offsets from the transcript start
             return world, gene, tx
     raise RuntimeError('designed generator: no transcript')
 
@@ -182,3 +184,160 @@ def gen_designed_run(rng, case):
     if run['mw4'] > 5000000:
         run['min_mw'], run['mw4'] = CG.off_grid_mw(rng, bases=(0, 300))
     return run
+
+# ------------------------------------------------------------------ gene record reaching upstream of the transcript
+def extend_gene_upstream(rng, world, gene):
+    """let the GENE record begin up to 25 nt upstream (gene orientation) of its most upstream transcript, as a gene
+    with another, unlisted, earlier TSS would: gene coordinates then differ from 'offset from the transcript start'
+    (seeded C09-8: SECT-n computed from the transcript instead of the gene).  Must run BEFORE any record is placed."""
+    others = [g for g in world['genes'] if g is not gene and g['chrom'] == gene['chrom']]
+    clen = len(world['chroms'][gene['chrom']])
+    if gene['strand'] == 1:
+        lo = max([g['end'] for g in others if g['end'] <= gene['start']] + [0])
+        room = gene['start'] - lo - 2
+        if room >= 3:
+            gene['start'] -= rng.randint(3, min(25, room))
+            return True
+    else:
+        hi = min([g['start'] for g in others if g['start'] >= gene['end']] + [clen])
+        room = hi - gene['end'] - 2
+        if room >= 3:
+            gene['end'] += rng.randint(3, min(25, room))
+            return True
+    return False
+
+# ------------------------------------------------------------------ compensating frameshift pair + record downstream
+def gen_framepair_case(rng):
+    """coding transcript (CDS start 0..30, so (start // 3) % 3 != start % 3 in two of three cases), two indels 4-18 nt
+    apart whose lengths add up to a multiple of 3 (frame restored), and 1-2 non-synonymous SNVs 4-20 codons further
+    downstream in the restored frame: peptides behind the pair must be labelled with their own records only (seeded
+    C03-8 adds the first indel to every one of them)"""
+    for _ in range(400):
+        world, gene, tx = _pick_tx(rng, min_codons=30)
+        cs, ce = tx['cds']
+        s = G.tx_seq(world, gene, tx)
+        gseq = G.gene_seq(world, gene)
+        ncod = (ce - cs) // 3
+        p1 = cs + 3 * rng.randint(2, max(2, ncod - 24)) + rng.randrange(3)
+        p2 = p1 + rng.randint(4, 18)
+        d1, d2 = rng.choice([(1, -1), (-1, 1), (1, 2), (2, 1), (-1, -2), (-2, -1), (2, -2), (-2, 2), (4, -1), (-1, -5)])
+        recs = []
+        okp = True
+        for tp, d in ((p1, d1), (p2, d2)):
+            gs = G.g2gene(gene, G.tx2g(gene, tx, tp))
+            n = 1 + max(0, -d)
+            if CG.map_record(gene, tx, gs, gs + n)[0] != 'exonic' or G.g2gene(gene, G.tx2g(gene, tx, tp + n - 1)) != gs + n - 1:
+                okp = False; break
+            if d > 0:
+                recs.append((gs, gseq[gs], gseq[gs] + ''.join(rng.choice('ACGT') for _k in range(d))))
+            else:
+                recs.append((gs, gseq[gs:gs + 1 - d], gseq[gs]))
+        if not okp or p2 + 6 > p1 + 1 + max(0, -d1) + 30:
+            continue
+        if p2 <= p1 + max(0, -d1):
+            continue
+        # the haplotype carrying both must read on to the downstream records
+        hap = s[:p1] + (recs[0][2] if d1 > 0 else s[p1]) + s[p1 + 1 + max(0, -d1):p2] + (recs[1][2] if d2 > 0 else s[p2]) + s[p2 + 1 + max(0, -d2):]
+        prot = G.translate(hap[cs:])
+        reach = cs + 3 * len(prot) - (d1 + d2)            # reference position the read-through reaches
+        lo = p2 + 12
+        if reach < lo + 15:
+            continue
+        hi = min(ce - 3, reach - 3, lo + 60)
+        for tq in sorted(rng.sample(range(lo, hi), min(hi - lo, rng.choice([1, 1, 2])))):
+            recs.append(_snv_at(rng, world, gene, tx, s, tq))
+        rows = []
+        for gs_, ref_, alt_ in sorted(set(recs)):
+            if ref_ != alt_:
+                rows.append([gene['id'], gs_ + 1, CG.var_id(gs_, ref_, alt_), ref_, alt_, tx['id'], gene['name']])
+        if len(rows) >= 3:
+            return {'world': world, 'gvf': rows, 'gene': gene['id'], 'target': tx['id'],
+                    'tag': 'framepair:cds%%3=%d:aa%%3=%d' % (cs % 3, (cs // 3) % 3)}
+    raise RuntimeError('frame-pair generator failed')
+
+# ------------------------------------------------------------------ stop-lost shapes + record in the read-through
+def gen_stoplost_case(rng):
+    """coding transcript with a 3'UTR; the stretch behind the stop codon is rewritten to  body K body(5-9) K body *  so
+    that a read-through has cleavage sites and ends; ONE stop-lost record of a chosen shape and 1-2 non-synonymous SNVs
+    in the read-through region behind the first K:
+      snv        SNV on one of the three bases of the stop codon                       (label carries it: measured)
+      del-stop   deletion of exactly the stop codon, anchored on the base before it (VCF style)
+      del-span   in-frame deletion of 3 nt anchored 2-3 nt before the stop codon (spans the boundary)
+      mnv-span   MNV over the last base(s) of the last sense codon and the first base(s) of the stop codon
+      del6       deletion of the last sense codon and the stop codon
+      fs         frameshifting indel in the last two sense codons (stop read in another frame)"""
+    for _ in range(600):
+        world, gene, tx = _pick_tx(rng, min_codons=14)
+        cs, ce = tx['cds']
+        L = G.tx_len(tx)
+        if L - (ce + 3) < 48:
+            continue
+        n1, n2, n3 = rng.randint(1, 3), rng.randint(5, 9), rng.randint(1, 3)
+        utr = [rng.choice(BODY) for _k in range(n1)] + [rng.choice('KR')] + [rng.choice(BODY) for _k in range(n2)] + \
+              [rng.choice('KR')] + [rng.choice(BODY) for _k in range(n3)]
+        if 3 * (len(utr) + 1) > L - (ce + 3):
+            continue
+        dna = ''.join(rng.choice(G.BACK[a]) for a in utr) + rng.choice(['TAA', 'TAG'])
+        # the last sense codon: no K/R/P so that the junction is not a cleavage site by itself in every case
+        last = rng.choice(G.BACK[rng.choice(BODY + 'KR')])
+        chrom = list(world['chroms'][gene['chrom']])
+        G._write_into(chrom, gene, tx['exons'], ce - 3, last)
+        G._write_into(chrom, gene, tx['exons'], ce + 3, dna)
+        world['chroms'][gene['chrom']] = ''.join(chrom)
+        s = G.tx_seq(world, gene, tx)
+        gseq = G.gene_seq(world, gene)
+        if G.CODON.get(s[ce:ce + 3]) != '*' or '*' in G.translate(s[cs:ce]) or len(G.translate(s[cs:])) * 3 != ce - cs:
+            continue
+        shape = rng.choice(['snv', 'del-stop', 'del-stop', 'del-span', 'del-span', 'mnv-span', 'mnv-span', 'del6', 'fs'])
+        def rec(tp, n, alt_of):
+            gs = G.g2gene(gene, G.tx2g(gene, tx, tp))
+            if CG.map_record(gene, tx, gs, gs + n)[0] != 'exonic' or G.g2gene(gene, G.tx2g(gene, tx, tp + n - 1)) != gs + n - 1:
+                return None
+            ref = gseq[gs:gs + n]
+            assert ref == s[tp:tp + n]
+            return (gs, ref, alt_of(ref))
+        if shape == 'snv':
+            k = rng.randrange(3)
+            alts = [b for b in 'ACGT' if b != s[ce + k] and G.CODON[s[ce:ce + k] + b + s[ce + k + 1:ce + 3]] != '*']
+            if not alts:
+                continue
+            r = rec(ce + k, 1, lambda ref: rng.choice(alts))
+        elif shape == 'del-stop':
+            r = rec(ce - 1, 4, lambda ref: ref[0])
+        elif shape == 'del-span':
+            r = rec(ce - rng.choice([2, 3]), 4, lambda ref: ref[0])
+        elif shape == 'del6':
+            r = rec(ce - 4, 7, lambda ref: ref[0])
+        elif shape == 'mnv-span':
+            a, n = rng.choice([(ce - 1, 2), (ce - 1, 3), (ce - 2, 3), (ce - 2, 4)])
+            r = rec(a, n, lambda ref: ''.join(rng.choice([b for b in 'ACGT' if b != c]) for c in ref))
+        else:
+            tp = ce - rng.randint(2, 6)
+            r = rec(tp, 1, lambda ref: ref + rng.choice('ACGT')) if rng.random() < 0.5 else rec(tp, 2, lambda ref: ref[0])
+        if r is None:
+            continue
+        # the haplotype with the stop-lost record alone must read into the designed stretch
+        ts = G.g2tx(gene, tx, G.gene2g(gene, r[0]))
+        hap = s[:ts] + r[2] + s[ts + len(r[1]):]
+        prot = G.translate(hap[cs:])
+        if shape != 'fs' and len(prot) * 3 + cs < ce + 3 * (n1 + n2):
+            continue
+        recs = [r]
+        b0 = ce + 3 + 3 * (n1 + 1)                    # first codon behind the first K of the read-through stretch
+        for i in rng.sample(range(n2), rng.choice([1, 1, 2])):
+            recs.append(_snv_at_frame(rng, world, gene, tx, s, b0 + 3 * i + rng.randrange(3), ce + 3))
+        rows = []
+        for gs_, ref_, alt_ in sorted(set(recs)):
+            if ref_ != alt_:
+                rows.append([gene['id'], gs_ + 1, CG.var_id(gs_, ref_, alt_), ref_, alt_, tx['id'], gene['name']])
+        if len(rows) >= 2:
+            return {'world': world, 'gvf': rows, 'gene': gene['id'], 'target': tx['id'], 'tag': 'stoplost:' + shape}
+    raise RuntimeError('stop-lost generator failed')
+
+def _snv_at_frame(rng, world, gene, tx, s, tp, frame0):
+    """non-synonymous, non-stop SNV at tp; codons counted from frame0 (a position in frame)"""
+    k = (tp - frame0) % 3
+    c0 = tp - k
+    alts = _nonsyn_alts(s[c0:c0 + 3], k) or [b for b in 'ACGT' if b != s[tp]]
+    gs = G.g2gene(gene, G.tx2g(gene, tx, tp))
+    return (gs, G.gene_seq(world, gene)[gs], rng.choice(alts))
